@@ -246,3 +246,26 @@ PROPS = {
         "level_text": "Contracts on the two real functions: the stability structure (every exponent argument <= 0, one per segment = 0), the bounds and the log-sum-exp identity are VCs over uninterpreted finite sums with explicitly listed, assumed lemma schemas whose premises are discharged; the axis form is plumbing around the trusted library logsumexp.",
     },
 }
+
+
+LEVEL_TEXT = {
+    "C01": "Proof, modular. (1) `solve`: inductive invariant of the backward loop for EVERY number of periods (V[T-1] = E(CCV(none)), V[t] = E_t(CCV_t(V[t+1])), chronological list). (2) Period step of the real code (solve_continuous_problem + discrete problem) against the Bellman operator written from the statement, per model skeleton and period, for all grid sizes/bounds, parameters, value arrays and uninterpreted user functions: layout, value >= objective of every combination passing all filters and constraints, right helper objects (V of t+1, indexer of t+1, params); attained / -inf clauses deductive for skeletons without filter-restricted variables, bounded stand-in otherwise. (3) `get_utility_and_feasibility_function` = utility + beta * sum of weights * interpolated V' with exact discrete lookups. Interpolation kernel, coordinates and grids enter through their own contracts (C15, C16). JIT-independence is not decided.",
+    "C02": "Proof for skeletons without filter-restricted choices: the real `simulate`, for any number of agents, on- and off-grid states, arbitrary value arrays, every period (cut point at the period loop): reported choices are grid values, pass filters and constraints, the reported value is the objective of the reported choices, no feasible grid choice is better, period t reads V[t+1]. Skeletons with filter-restricted choices: bounded stand-in (sampled native runs), not counted as proved.",
+    "C03": "Proof: period-0 rows are the initial states; period t+1 starts from the outcome of period t, which equals the model's transition functions at the same agent's period-t row (own parameters only); a stochastic next state is a label of the state's grid with positive probability in the row selected by the agent's dependency labels (the latter from the assumed PRNG contract). All agents counts; skeleton family incl. three with filter-restricted choices (create_choice_segments used through its contract); one skeleton bounded.",
+    "C06": "Proof of the path statement (solve function called once with params, period t reads element t+1, entry-point wiring, one generated objective per period shared by solver and policy) plus C01/C02 clauses against the same per-period objective; the value equality at on-grid states is their argued composition.",
+    "C07": "Proof per skeleton: template keys, entries = free arguments, shock shapes in signature order; every processed function receives exactly the values stored under its own name (shared parameter names across functions are distinct symbols); weights = shock row at the dependency labels in signature order.",
+    "C11": "Lemmas over the Bellman operator for arbitrary choice sets (affine step and base, linear expectation, beta = 0, horizon independence; the affine law of a finite maximum also in Lean) + the code-facing contracts of C01 (single discount step, no continuation in the last period, expectation as weighted sum).",
+    "C12": "Proof: Model(...) raises ModelInitilizationError iff a documented rule is broken (13 rule cases; every integer n_periods), late rules raise ValueError in get_lcm_function, and every skeleton that is accepted is solved symbolically without any reachable exception and with every library side condition discharged. Three accepted-but-failing specifications are recorded known findings.",
+    "C13": "Proof: index = period-major product, columns and lengths, _period, row (t,i) holds entry i of what period t computed and ran on, targets are evaluated row-wise and equal the model function at the row; all agents counts; skeleton family (one restricted-choice skeleton bounded).",
+    "C14": "Proof: exact lookup through labels/indexer + multilinear interpolation at the grid coordinates for Space(2,2,3) with linear/log mixes, both prefixes, reversed info mappings; node reproduction by composition with the kernel and coordinate contracts (C15).",
+    "C15": "Proof for all inputs: per-axis cell and weights; kernel = multilinear blend incl. linear continuation for ranks 1..4 (the statement's bound) scalar and batched; node reproduction; linear and logarithmic grid coordinates (node index, strict monotonicity) and the linear round trip. exp/log facts as ground instances of Mathlib lemmas (general forms checked by Lean in the thorough tier).",
+    "C16": "Proof over all kind combinations of start/stop/n_points (symbolic ints/reals; +inf, -inf, nan, bool, non-numeric as separate cases): reject with GridInitializationError or materialise exactly as specified (linear / log scale); discrete grids accepted iff dataclass with values 0,1,2,... and array form = codes.",
+    "C17": "Proof: filter mask = conjunction of filters on the product of restricted grids in canonical order; stored rows = True positions in row-major order, each once; state indexer = order isomorphism onto [0, #feasible states) and -1 elsewhere; space layout. Segment ids / state-choice indexer: bounded stand-in + two assumed counting lemmas.",
+    "C18": "Proof for all sizes, contents, masks, ties: argmax (ranks 1..4 x every axis argument x where/initial), segment_argmax, no-shock reduction (max over choice axes and segments), and the period step that wires them. The JIT-recomputation clause is not decided.",
+    "C19": "Proof, complete over the signature families: keyword wrappers for every signature with <= 5 parameters (quick: 3), every keyword order and positional/keyword split, rejections; dispatchers over signatures with <= 4 parameters, every ordered subset of mapped names, scalar / tuple / dict / array-valued outputs.",
+    "C20": "Proof over uninterpreted finite sums with listed lemma schemas (premises discharged; general forms checked by Lean): stability structure of the segment log-sum-exp, bounds, identity log sum exp; axis form = scale * logsumexp(values/scale) over exactly the dense choice axes (library logsumexp trusted).",
+    "C05": "Proof per skeleton (and reversed declaration orders in the thorough tier): canonical variable order, storage of dense and restricted variables, axis names, value-array axes and lengths, chronological list for every number of periods.",
+    "C09": "Proof of frame conditions by executor-level store tracking (no store into the model, user functions, params, module state, default arguments, per-period lists; model and params identical afterwards) over get_lcm_function and repeated interleaved solve calls; objective, period-step and key-assignment contracts re-proved in processes with other PYTHONHASHSEED values.",
+}
+for _p, _t in LEVEL_TEXT.items():
+    PROPS[_p].setdefault("level_text", _t)
